@@ -34,6 +34,17 @@ def run(chk):
         tf = work / ("g%d.utb" % i)
         tf.write_text(tablegen.table_text(entries))
         lists.append((("unicode.dis," if r.chance(0.7) else "") + str(tf), True))
+    # generated multipass tables (rules in every stage, both directions, insertions that lengthen the text): the stages
+    # after the first have their own capacity tests
+    alph = {}
+    for i in range(40 if quick else 600):
+        r = rng.fork(("mp", i))
+        entries, rules, letters = tablegen.gen_c06_table(r, risky=r.chance(0.3), directions=("noback", "nofor"))
+        tf = work / ("m%d.utb" % i)
+        tf.write_text(tablegen.pass_table_text(entries, rules))
+        tl_ = ("unicode.dis," if r.chance(0.7) else "") + str(tf)
+        lists.append((tl_, True))
+        alph[tl_] = letters + [32]
     (work / "broken.utb").write_text("letter a 1\nnosuchopcode b 2\n")
     lists.append((str(work / "broken.utb"), False))
     lists.append(("no-such-table-anywhere.ctb", False))
@@ -47,6 +58,8 @@ def run(chk):
         lines, meta = [], []
         for i in range(50 if quick else 250):
             inp = safety.gen_input(r, 36)
+            if tl in alph and r.chance(0.8):
+                inp = [r.choice(alph[tl]) for _ in range(r.range(1, 16))]
             k = r.below(10)
             mode = safety.gen_mode(r) & ~(2 | 32)
             fn = r.choice("TTTSB")
